@@ -8,4 +8,4 @@ Separate Extraction
   Gen_P4.pvSetHashProbe Gen_P4.Remove Gen_P4.GetHashCodePart Gen_P4.pvGetCount Gen_P4.pvCalcShortHash Gen_P4.pvGetProbeShift
   Gen_P4.GetNextBucketIndex Gen_P4.pvSetEmpty
   Gen_One.AddCrt Gen_One.Remove Gen_One.GetHashCodePart Gen_One.IsFull Gen_One.pvGetHashState
-  P4_Model.p4_add.
+  P4_Model.p4_add Coq.Init.Nat.pred.   (* Nat.pred: lib/zutil.ml needs the extracted Datatypes.nat *)
